@@ -8,7 +8,9 @@ MODULE = "Nice.Props.C06"
 THEOREMS = [f"Nice.Props.C06.{t}" for t in (
     "C06_length_iff_grammar", "C06_incomplete_iff", "C06_fast_split_independent",
     "C06_fast_agrees_with_full", "C06_find_is_reference", "C06_walk_terminates_no_fault",
-    "C06_fast_split_independent_with_empties")]
+    "C06_fast_split_independent_with_empties")] + ["Nice.Props.C03Recv.demux_same_padding"]
+# demux_same_padding: in the skeleton of agent_recv_message_unlocked regenerated from the source, the vectored pre-check and the
+# contiguous check receive textually the same padding argument (so C06_fast_agrees_with_full applies to the demultiplexer)
 TRUSTED = [
     "Lean 4 kernel; axioms allowed: propext, Classical.choice, Quot.sound (audited by #print axioms on every run)",
     "hand-written model Nice/Model/Stun/{Basic,Find}.lean of stun/stunmessage.c (validate_buffer_length{,_fast}, find), "
